@@ -69,6 +69,14 @@ partial def parseBody (toks : List String) : Option (List EInstr × String × Li
     | ["gset", n] => n.toNat?.bind fun n => cont (.globalSet n) rest
     | ["load", opcode, _, _, off] => off.toNat?.bind fun o => cont (.load opcode o) rest
     | ["store", opcode, _, _, off] => off.toNat?.bind fun o => cont (.store opcode o) rest
+    | ["aload", opcode, _, _, off] => off.toNat?.bind fun o => cont (.atomicLoad opcode o) rest
+    | ["astore", opcode, _, _, off] => off.toNat?.bind fun o => cont (.atomicStore opcode o) rest
+    | ["rmw", opcode, _, _, off] => off.toNat?.bind fun o => cont (.atomicRmw opcode o) rest
+    | ["cmpxchg", opcode, _, _, off] => off.toNat?.bind fun o => cont (.atomicCmpxchg opcode o) rest
+    | ["fence"] => cont .atomicFence rest
+    | ["notify", off] => off.toNat?.bind fun o => cont (.atomicNotify o) rest
+    | ["wait32", off] => off.toNat?.bind fun o => cont (.atomicWait false o) rest
+    | ["wait64", off] => off.toNat?.bind fun o => cont (.atomicWait true o) rest
     | ["br", n] => n.toNat?.bind fun n => cont (.br n) rest
     | ["brif", n] => n.toNat?.bind fun n => cont (.brIf n) rest
     | ["brtable", ls, d] => do
